@@ -289,6 +289,25 @@ fn definition_order(text: &str, first: &Program) -> Result<(), String> {
     if first.memory_regions.keys().cloned().collect::<Vec<_>>() != decls.iter().map(|(k, _)| k.clone()).collect::<Vec<_>>() {
         return Err("DECLAREs are not listed in the order in which each was first added".to_string());
     }
+    let externs = first_added_order(
+        added
+            .iter()
+            .filter_map(|i| match i {
+                Instruction::Pragma(p) if p.name == "EXTERN" => Some((
+                    match p.arguments.first() {
+                        Some(quil_rs::instruction::PragmaArgument::Identifier(n)) => Some(n.clone()),
+                        _ => None,
+                    },
+                    p.clone(),
+                )),
+                _ => None,
+            })
+            .collect(),
+    );
+    let listed: Vec<_> = first.to_instructions().into_iter().filter_map(|i| match i { Instruction::Pragma(p) if p.name == "EXTERN" => Some(p), _ => None }).collect();
+    if listed != externs.iter().map(|(_, p)| p.clone()).collect::<Vec<_>>() {
+        return Err("PRAGMA EXTERNs are not listed in the order in which each was first added (redefinitions in place)".to_string());
+    }
     let waves = first_added_order(added.iter().filter_map(|i| if let Instruction::WaveformDefinition(w) = i { Some((w.name.clone(), w.definition.clone())) } else { None }).collect());
     if first.waveforms.iter().map(|(k, v)| (k.clone(), v.clone())).collect::<Vec<_>>() != waves {
         return Err("DEFWAVEFORMs are not listed in the order in which each was first added (redefinitions in place)".to_string());
